@@ -348,6 +348,22 @@ def match_known(K, oid, c, model):
     return out
 
 
+def match_known_concrete(K, oid, values):
+    """known-finding regions for a run-time (bounded) check: the region predicate gets the concrete input values"""
+    out = []
+    for suffix, entries in (getattr(K, 'known', None) or {}).items():
+        if not oid.endswith(suffix):
+            continue
+        for (kid, region, text) in entries:
+            try:
+                ok = bool(region(values))
+            except Exception:  # noqa
+                ok = False
+            if ok:
+                out.append({'id': kid, 'what': text})
+    return out
+
+
 def observe(K, c, a, out, call):
     if hasattr(K, 'observe'):
         return jsonable(K.observe(c, a, out))
